@@ -53,7 +53,12 @@ func jsonSchedFile(dir string, n int, badLine int) (path string, want []string) 
 		}
 		want = append(want, stream.ValsKey([]octosql.Value{octosql.NewFloat(float64(i)), octosql.NewString(fmt.Sprintf("r%d", i))}))
 	}
-	path = filepath.Join(dir, fmt.Sprintf("sched%d_%d.json", n, badLine))
+	// no '-' in the name: these files are also named in SQL
+	tag := "ok"
+	if badLine >= 0 {
+		tag = fmt.Sprintf("bad%d", badLine)
+	}
+	path = filepath.Join(dir, fmt.Sprintf("sched%d_%s.json", n, tag))
 	if err := os.WriteFile(path, []byte(b.String()), 0o644); err != nil {
 		panic(err)
 	}
